@@ -34,20 +34,22 @@ KEY_PARTIAL = "create_data_movement_deep_copy_refs/copyout-array-partially-writt
 KEY_READ = "create_data_movement_deep_copy_refs/copyout-array-read-before-written"
 
 HEADER = """From Coq Require Import List ZArith Bool String. Import ListNotations.
-From PV Require Import Fort.Syntax Fort.Sem C11.Access C12.InOut C13.AccData.
+From PV Require Import Fort.Syntax Fort.Sem C11.Access C12.InOut C13.AccData C13.Static.
 Open Scope Z_scope.
 Definition x_accept (x : xstmt) : bool :=
   match x with XCore s => s_accept s | XWhile _ body => forallb s_accept body | _ => true end.
 (* case: region (with calls), declared arrays, implementation accepted?, copyin, copyout, copy, culprit arrays
    result: (verdict agrees, clauses agree (true when refused), copyout arrays never read, reason codes) *)
-Definition c13_case := (list xstmt * list name * bool * list name * list name * list name * list name)%type.
-Definition eval_case (c : c13_case) : bool * bool * bool * list nat :=
-  match c with (xs, arrs, acc, cin, cout, cpy, cs) =>
+Definition c13_case := (list xstmt * list name * list (name * list (Z * Z)) * bool * list name * list name * list name * list name)%type.
+Definition eval_case (c : c13_case) : bool * bool * bool * list nat * bool :=
+  match c with (xs, arrs, bds, acc, cin, cout, cpy, cs) =>
     let isarr := fun x => mem x arrs in
+    let b := fun a => match find (fun p => Nat.eqb (fst p) a) bds with Some p => snd p | None => [] end in
     (Bool.eqb (forallb x_accept xs) acc,
      if acc then clauses_agree (xs, arrs, cin, cout, cpy) else true,
      forallb (fun x => negb (isread x (xaccs false xs))) (in_clause isarr (xaccs false xs) CopyOut),
-     map (x_reason isarr xs) cs)
+     map (x_reason isarr xs) cs,
+     acc && negb (has_call xs) && static_safe isarr b (core_of xs))
   end.
 (* cross-check of the harness' two-memory evaluator against exec_dev with the SAME clause lists:
    (semantics of the region, arrays, copyin, copyout, copy, junk, store, expected final values) *)
@@ -345,12 +347,17 @@ def run(ctx):
         cin, cout, cpy = r["clauses"] if r["accepted"] else ([], [], [])
         culprits = [c if c in r["nm"].ids else None for c, _, _, _, _ in r["fails"]]
         r["culprit_ids"] = culprits
-        coq_cases.append("(%s, %s, %s, %s, %s, %s, %s)" % (
-            C12.xstmts_to_coq(r["xs"], r["nm"]), names(r, r["arrays"]), "true" if r["accepted"] else "false",
+        bds = "; ".join("(%d%%nat, [%s])" % (r["nm"].get(a), "; ".join("((%d), (%d))" % p for p in r["bnds"][a]))
+                        for a in r["arrays"])
+        coq_cases.append("(%s, %s, [%s], %s, %s, %s, %s, %s)" % (
+            C12.xstmts_to_coq(r["xs"], r["nm"]), names(r, r["arrays"]), bds, "true" if r["accepted"] else "false",
             names(r, cin), names(r, cout), names(r, cpy), names(r, [c for c in culprits if c is not None])))
     results = C12.coq_eval_values(ctx, HEADER, "c13_case", "eval_case", coq_cases, shard=ctx.pick(70, 100))
     mism = []
-    for r, (v_ok, c_ok, wo, reasons) in zip(regions, results):
+    n_static = 0
+    for r, (v_ok, c_ok, wo, reasons, stat) in zip(regions, results):
+        n_static += bool(stat)
+        r["static"] = bool(stat)
         r["agrees"] = v_ok and c_ok
         it = iter(reasons)
         r["reasons"] = [next(it) if c is not None else 99 for c in r["culprit_ids"]]
@@ -360,6 +367,9 @@ def run(ctx):
         if r["accepted"]:
             ctx.hist("bucket", ("copyout-write-only" if wo else "copyout-array-read") + ("/call" if r["has_call"] else ""))
     ctx.cov["disagreements_checked"] = len(mism)
+    ctx.notes["accepted_regions_in_static_class"] = n_static
+    ctx.notes["accepted_regions"] = sum(r["accepted"] for r in regions)
+    ctx.log("accepted regions inside static_safe (C13_acc_sound_static): %d of %d" % (n_static, sum(r["accepted"] for r in regions)))
     ctx.log("model/impl disagreements=%d" % len(mism))
     # ---- cross-check of the two-memory evaluator against Coq exec_dev
     dcases = []
@@ -391,6 +401,8 @@ def run(ctx):
             info = replay_of(r, {"culprit_array": culprit, "failure": kind, "detail": detail, "reason_code": k,
                                  "store": sorted(r["stores"][si][0].items())})
             key = None
+            if r.get("static"):
+                run_ok = True          # theorem C13_acc_sound_static applies: any difference is a VIOLATION
             if not run_ok:
                 if kind == "device-reads-undefined" and k == 2:
                     key = KEY_READ
